@@ -248,4 +248,49 @@ def Quiet (s : State) : Prop := ∀ t, t < NT → s.todo t = []
 theorem not_inTodos_of_quiet {s : State} (hq : Quiet s) (a : Act) : ¬ InTodos s a := by
   rintro ⟨t, ht, hm⟩; rw [hq t ht] at hm; cases hm
 
+/-! ### concrete executions (for the non-vacuity examples of Props/C03, C04, C15) -/
+
+def runSched (s : State) : List Nat → Option State
+  | [] => some s
+  | t :: ts => match step s t with
+    | some (s', _) => runSched s' ts
+    | none => none
+
+theorem reach_runSched {s s' : State} (ts : List Nat) (h : sys.Reach s) (hr : runSched s ts = some s') : sys.Reach s' := by
+  induction ts generalizing s with
+  | nil => cases hr; exact h
+  | cons t ts ih =>
+    simp only [runSched] at hr
+    cases hst : step s t with
+    | none => rw [hst] at hr; cases hr
+    | some p =>
+      rw [hst] at hr
+      exact ih (Sys.Reach.step (t := t) (l := p.2) h (by show step s t = some (p.1, p.2); rw [hst])) hr
+
+theorem some_getD_of_isSome {α : Type} (o : Option α) (d : α) (h : o.isSome = true) : o = some (o.getD d) := by
+  cases o with
+  | none => cases h
+  | some x => rfl
+
+
+/-! ### the hypotheses are satisfiable: `c = a | b` is built, then `a.go()` -/
+
+def demoO0 : State := newLeaf (newLeaf init)                                   -- a = 2, b = 3
+def demoO1 : Option State := call demoO0 0 (.mkOr 2 3)
+def demoO2 : Option State := runSched (demoO1.getD init) [0, 0, 0, 0, 0, 0, 0]    -- tests, OrSignal, three registrations, ret: c = 4
+def demoO3 : Option State := call (demoO2.getD init) 1 (.go 2)
+def demoO4 : Option State := runSched (demoO3.getD init) [1, 1, 1, 1, 1, 1]       -- flag, hook, c.go(), cleanup, two removals
+
+theorem demoO_reach : sys.Reach (demoO2.getD init) ∧ sys.Reach (demoO4.getD init) := by
+  have h1 := some_getD_of_isSome demoO1 init (by decide +kernel)
+  have h2 := some_getD_of_isSome demoO2 init (by decide +kernel)
+  have h3 := some_getD_of_isSome demoO3 init (by decide +kernel)
+  have h4 := some_getD_of_isSome demoO4 init (by decide +kernel)
+  have r0 : sys.Reach demoO0 :=
+    Sys.Reach.env (Sys.Reach.env (Sys.Reach.init rfl) (Or.inr (Or.inl rfl))) (Or.inr (Or.inl rfl))
+  have r1 : sys.Reach (demoO1.getD init) := Sys.Reach.env r0 (Or.inl ⟨0, _, h1⟩)
+  have r2 : sys.Reach (demoO2.getD init) := reach_runSched _ r1 h2
+  have r3 : sys.Reach (demoO3.getD init) := Sys.Reach.env r2 (Or.inl ⟨1, _, h3⟩)
+  exact ⟨r2, reach_runSched _ r3 h4⟩
+
 end MoThreads.Composite
